@@ -508,8 +508,8 @@ def r8r9_paths(text, fn, log, extra=()):
                      (r'(?<![A-Za-z0-9_:])::core::cmp::', '')]:
         for mk in re.finditer(pat, m):
             edits.append((mk.start(), mk.end(), rep))
-    # drop overlapping (keep first)
-    edits.sort()
+    # drop overlapping (keep first; at the same start the longest match wins)
+    edits.sort(key=lambda e: (e[0], -e[1]))
     keep = []
     pos = -1
     for e in edits:
